@@ -221,3 +221,124 @@ def node_extend(c):
                             c.result == E.TSK_ERR_TABLE_OVERFLOW, c.result == E.TSK_ERR_COLUMN_OVERFLOW,
                             c.result == E.TSK_ERR_CANNOT_EXTEND_FROM_SELF), "codes")
     node_assigns(c, self_)
+
+
+# ------------------------------------------------------------------------------------------ keep_rows
+from .tables_rows import rank, newoff_of, rank_axioms, newoff_axioms      # noqa: E402
+
+sel = z3.Function("sel", z3.IntSort(), z3.IntSort())      # ghost: sel(a) = the a-th kept row (inverse of rank on kept rows)
+
+
+def sel_axioms(keep, n):
+    """every new row index below rank(n) is the rank of exactly one kept row, in order (same induction as rank)"""
+    a_, b2 = z3.Ints("a a2")
+    return z3.And(
+        z3.ForAll([a_], z3.Implies(z3.And(0 <= a_, a_ < rank(n)),
+                                   z3.And(0 <= sel(a_), sel(a_) < n, keep[sel(a_)] != 0, rank(sel(a_)) == a_))),
+        z3.ForAll([a_, b2], z3.Implies(z3.And(0 <= a_, a_ < b2, b2 < rank(n)), sel(a_) < sel(b2))))
+
+
+@contract("tables.c", "tsk_node_table_keep_rows", ["self", "keep", "TSK_UNUSED_options", "id_map"], timeout=40)
+def node_keep_rows(c):
+    """the table becomes the sub-list of its kept rows, in order (every column, boundaries and bytes of the metadata);
+    id_map (when given) maps every old row to its new index or NULL"""
+    self_, keepp, mp = c.arg("self"), c.arg("keep"), c.arg("id_map")
+    h = c.old
+    c.requires(z3.Not(h.isnull(self_)))
+    V = NodeView(h, self_)
+    c.requires(V.rep())
+    n = V.n
+    c.requires(z3.Implies(n > 0, z3.And(z3.Not(h.isnull(keepp)), keepp.off == 0, h.len(keepp) >= n)))
+    keep = h.arr(keepp)
+    c.requires(rank_axioms(keep, n))
+    c.requires(newoff_axioms(keep, V.off, n))
+    newoff = newoff_of(V.off)
+    if mp.region is not None:
+        c.requires(z3.Or(h.isnull(mp), z3.And(mp.off == 0, h.len(mp) >= n)))
+
+    def post():
+        N = NodeView(c.new, self_)
+        cs = [c.result == 0, N.n == rank(n), N.mlen == newoff(n), N.rep()]
+        for col in NODE_FIXED:
+            cs.append(z3.ForAll([i], z3.Implies(z3.And(0 <= i, i < n, keep[i] != 0), N.col(col)[rank(i)] == V.col(col)[i])))
+        cs.append(z3.ForAll([i], z3.Implies(z3.And(0 <= i, i < n, keep[i] != 0), z3.And(
+            N.off[rank(i)] == newoff(i),
+            z3.ForAll([b_], z3.Implies(z3.And(0 <= b_, b_ < V.off[i + 1] - V.off[i]),
+                                       N.md[newoff(i) + b_] == V.md[V.off[i] + b_]))))))
+        return z3.And(*cs)
+    c.ensures(post, "table_is_the_sublist_of_kept_rows")
+    if mp.region is not None:
+        c.ensures(lambda: z3.Implies(z3.Not(h.isnull(mp)), z3.ForAll([i], z3.Implies(
+            z3.And(0 <= i, i < n), c.new.arr(mp)[i] == z3.If(keep[i] != 0, rank(i), -1)))), "id_map_is_rank_or_null")
+        c.assigns(mp)
+    node_assigns(c, self_)
+
+
+@contract("tables.c", "tsk_mutation_table_keep_rows", ["self", "keep", "TSK_UNUSED_options", "ret_id_map"], timeout=40)
+def mutation_keep_rows(c):
+    """C13: keep_rows on the self-referencing mutation table: a kept row whose parent is out of range or dropped is
+    rejected and the table is left as it was; otherwise the table becomes the sub-list of kept rows with every
+    parent (pointing backwards or forwards) replaced by the new index of the row it names"""
+    from .tables_rows_generic import View
+    self_, keepp, mp = c.arg("self"), c.arg("keep"), c.arg("ret_id_map")
+    h, E = c.old, c.E
+    c.requires(z3.Not(h.isnull(self_)))
+    V = View(h, self_, "mutations")
+    c.requires(V.rep())
+    n = V.n
+    c.requires(z3.Implies(n > 0, z3.And(z3.Not(h.isnull(keepp)), keepp.off == 0, h.len(keepp) >= n)))
+    keep = h.arr(keepp)
+    c.requires(rank_axioms(keep, n))
+    for r in V.ragged:
+        c.requires(newoff_axioms(keep, V.off(r), n))
+    if mp.region is not None:
+        c.requires(z3.Or(h.isnull(mp), z3.And(mp.off == 0, h.len(mp) >= n)))
+    par = V.col("parent")
+    ok_row = lambda q: z3.Or(par[q] == -1, z3.And(0 <= par[q], par[q] < n, keep[par[q]] != 0))
+    all_ok = z3.ForAll([i], z3.Implies(z3.And(0 <= i, i < n, keep[i] != 0), ok_row(i)))
+    c.loop(0).invariant(lambda s: z3.And(0 <= s.j, s.j <= n, s.ret == 0,
+                                         z3.ForAll([i], z3.Implies(z3.And(0 <= i, i < s.j, keep[i] != 0), ok_row(i))),
+                                         z3.ForAll([i], z3.Implies(z3.And(0 <= i, i < n),
+                                                                   s.arr(s.local("id_map"))[i] == z3.If(keep[i] != 0, rank(i), -1)))))
+
+    def unchanged(N):
+        cs = [N.n == V.n]
+        for col in V.fixed:
+            cs.append(z3.ForAll([i], z3.Implies(z3.And(0 <= i, i < n), N.col(col)[i] == V.col(col)[i])))
+        for r in V.ragged:
+            cs.append(N.length(r) == V.length(r))
+            cs.append(z3.ForAll([i], z3.Implies(z3.And(0 <= i, i <= n), N.off(r)[i] == V.off(r)[i])))
+            cs.append(z3.ForAll([b_], z3.Implies(z3.And(0 <= b_, b_ < V.length(r)), N.col(r)[b_] == V.col(r)[b_])))
+        return z3.And(*cs)
+
+    def sublist(N):
+        cs = [N.n == rank(n), N.rep()]
+        for col in V.fixed:
+            if col == "parent":
+                cs.append(z3.ForAll([i], z3.Implies(z3.And(0 <= i, i < n, keep[i] != 0),
+                                                    N.col(col)[rank(i)] == z3.If(par[i] == -1, -1, rank(par[i])))))
+            else:
+                cs.append(z3.ForAll([i], z3.Implies(z3.And(0 <= i, i < n, keep[i] != 0), N.col(col)[rank(i)] == V.col(col)[i])))
+        for r in V.ragged:
+            no = newoff_of(V.off(r))
+            cs.append(N.length(r) == no(n))
+            cs.append(z3.ForAll([i], z3.Implies(z3.And(0 <= i, i < n, keep[i] != 0), z3.And(
+                N.off(r)[rank(i)] == no(i),
+                z3.ForAll([b_], z3.Implies(z3.And(0 <= b_, b_ < V.off(r)[i + 1] - V.off(r)[i]),
+                                           N.col(r)[no(i) + b_] == V.col(r)[V.off(r)[i] + b_]))))))
+        return z3.And(*cs)
+
+    def post():
+        N = View(c.new, self_, "mutations")
+        return z3.And(z3.Implies(c.result == 0, z3.And(all_ok, sublist(N))),
+                      z3.Implies(c.result != 0, z3.And(unchanged(N), N.rep())))
+    c.ensures(post, "sublist_with_parents_remapped_or_unchanged")
+    c.ensures(lambda: z3.Implies(z3.Not(all_ok), c.result != 0), "dangling_or_out_of_range_parent_rejected")
+    c.ensures(lambda: z3.Or(c.result == 0, c.result == E.TSK_ERR_MUTATION_OUT_OF_BOUNDS,
+                            c.result == E.TSK_ERR_KEEP_ROWS_MAP_TO_DELETED, c.result == E.TSK_ERR_NO_MEMORY), "codes")
+    if mp.region is not None:
+        c.ensures(lambda: z3.Implies(z3.And(z3.Not(h.isnull(mp)), c.result == 0), z3.ForAll([i], z3.Implies(
+            z3.And(0 <= i, i < n), c.new.arr(mp)[i] == z3.If(keep[i] != 0, rank(i), -1)))), "id_map_is_rank_or_null")
+        c.assigns(mp)
+    from .tables_rows_generic import all_assigns
+    all_assigns(c, "mutations", self_)
